@@ -292,7 +292,18 @@ func runC16(c *Ctx) {
 			if cl, ok := v.(*ssa.Call); ok {
 				switch calleeName(&cl.Call) {
 				case "time.Since":
-					return "age", true
+					// the age of the token is measured from its modification time as recorded by
+					// the file system (not a rounded or truncated one)
+					if mt, ok := strip(argsOf(cl)[0]).(*ssa.Call); ok && strings.HasSuffix(calleeName(&mt.Call), ".ModTime") {
+						var recv ssa.Value = mt.Call.Value
+						if !mt.Call.IsInvoke() && len(mt.Call.Args) > 0 {
+							recv = mt.Call.Args[0]
+						}
+						if e, ok := strip(recv).(*ssa.Extract); ok && stat != nil && e.Tuple == ssa.Value(stat) && e.Index == 0 {
+							return "age", true
+						}
+					}
+					return "", false
 				case "os.IsNotExist":
 					return "notExist", true
 				}
